@@ -224,11 +224,19 @@ fn oracle_log(r: &Req, out: &str) -> Result<(), String> {
 
 // ---------------------------------------------------------------- print.targets
 
-struct SharedVec(Arc<Mutex<Vec<u8>>>);
+/// a user stream; `write` may legally accept fewer bytes than offered (at most `.1` per call):
+/// the delivered bytes must not depend on that
+struct SharedVec(Arc<Mutex<Vec<u8>>>, usize);
+static CHUNK_NO: std::sync::atomic::AtomicUsize = std::sync::atomic::AtomicUsize::new(0);
+fn next_chunk() -> usize {
+    const CHUNKS: [usize; 5] = [usize::MAX, 1, 7, 64, 3];
+    CHUNKS[CHUNK_NO.fetch_add(1, std::sync::atomic::Ordering::SeqCst) % CHUNKS.len()]
+}
 impl Write for SharedVec {
     fn write(&mut self, buf: &[u8]) -> std::io::Result<usize> {
-        self.0.lock().unwrap().extend_from_slice(buf);
-        Ok(buf.len())
+        let k = buf.len().min(self.1);
+        self.0.lock().unwrap().extend_from_slice(&buf[..k]);
+        Ok(k)
     }
     fn flush(&mut self) -> std::io::Result<()> {
         Ok(())
@@ -376,7 +384,7 @@ fn run_targets(r: &Req) -> String {
     // stream
     let shared = Arc::new(Mutex::new(Vec::new()));
     let mut ss = mk();
-    ss.print_to_stream(Box::new(SharedVec(shared.clone())));
+    ss.print_to_stream(Box::new(SharedVec(shared.clone(), next_chunk())));
     ss.solve();
     let ls = String::from_utf8_lossy(&shared.lock().unwrap()).to_string();
     // file
